@@ -162,9 +162,14 @@ deriving DecidableEq, Repr
 /-- `should_have_kwargs` for a function that is no property setter and whose name is no dunder -/
 def Guard.shouldHaveKwargs (g : Guard) : Bool := !g.wantsArgs
 
+/-- `DecoratedFunction.is_instance_method`: the first parameter `getfullargspec` lists is spelled `self` — and, when the source says so
+    (`instanceMethodExcludesBound`, read by the translator), the callable is not a bound method object, whose instance is not among
+    the arguments of a call -/
+def Guard.isInstanceMethod (g : Guard) : Bool := g.selfFirst && !(instanceMethodExcludesBound && g.isMethodObj)
+
 /-- length of `args_without_self` -/
 def Guard.argsWithoutSelf (g : Guard) (n : Nat) : Nat :=
-  if g.selfFirst || g.isStatic || decide (g.nDecorators > (if g.marker then 1 else 0)) then n - 1 else n
+  if g.isInstanceMethod || g.isStatic || decide (g.nDecorators > (if g.marker then 1 else 0)) then n - 1 else n
 
 /-- `assert_uses_kwargs` raises -/
 def Guard.trips (g : Guard) (a : Args) : Bool := g.shouldHaveKwargs && decide (g.argsWithoutSelf a.pos.length > 0)
@@ -173,9 +178,10 @@ def Guard.trips (g : Guard) (a : Args) : Bool := g.shouldHaveKwargs && decide (g
     statements before the guard; nothing observable happens in between, so its exception is raised by the guard statement here. -/
 def Guard.rejects (g : Guard) (a : Args) : Option String :=
   if g.notFunction then some "PedanticTypeCheckException"
-  -- `FunctionCall.__init__`: `self._instance = self.args[0] if self.func.is_instance_method else None` — a callable whose first
-  -- parameter is spelled `self` called without any positional argument (a BOUND method handed to the decorator, called by keyword)
-  else if g.selfFirst && a.pos.isEmpty then some "IndexError"
+  -- `FunctionCall.__init__`: `self._instance = self.args[0] if self.func.is_instance_method else None` — what counts as an instance
+  -- method is called without any positional argument: the FUNCTION of a method reached through the class with the instance passed as
+  -- `self=…` (before fix 86bfec9 also: a bound method handed to the decorator and called by keyword)
+  else if g.isInstanceMethod && a.pos.isEmpty then some "IndexError"
   else if g.trips a then some "PedanticCallWithArgsException" else none
 
 /-- `FunctionCall._get_return_value` calls `func(**kwargs)` for these and `func(*args, **kwargs)` otherwise -/
